@@ -217,7 +217,7 @@ static const unsigned char *
 
 static ares_bool_t timeval_is_set(const ares_timeval_t *tv)
 {
-  if (tv->sec != 0 && tv->usec != 0) {
+  if (tv->sec != 0 || tv->usec != 0) {
     return ARES_TRUE;
   }
   return ARES_FALSE;
